@@ -1479,7 +1479,31 @@ fn pick_cropped_region<'a>(
         .or_else(|| regions.first())
 }
 
+/// Render `err` and neutralise control characters in the result.
+///
+/// Messages reflect text taken from the input (unknown field names, duplicate keys, ...), and
+/// custom formatters may add more, so the finished report - headline, labels and source lines
+/// alike - is passed through the same filter as the snippet source before it is written out.
 fn fmt_error_rendered(
+    f: &mut fmt::Formatter<'_>,
+    err: &Error,
+    options: RenderOptions<'_>,
+) -> fmt::Result {
+    struct Raw<'a>(&'a Error, RenderOptions<'a>);
+    impl fmt::Display for Raw<'_> {
+        fn fmt(&self, f: &mut fmt::Formatter<'_>) -> fmt::Result {
+            fmt_error_rendered_raw(f, self.0, self.1)
+        }
+    }
+    let out = Raw(err, options).to_string();
+    if crate::de_snipped::is_terminal_snippet_clean(&out) {
+        f.write_str(&out)
+    } else {
+        f.write_str(&crate::de_snipped::sanitize_terminal_snippet_preserve_len(out))
+    }
+}
+
+fn fmt_error_rendered_raw(
     f: &mut fmt::Formatter<'_>,
     err: &Error,
     options: RenderOptions<'_>,
@@ -1502,7 +1526,7 @@ fn fmt_error_rendered(
                     writeln!(f)?;
                 }
                 first = false;
-                fmt_error_rendered(f, err, options)?;
+                fmt_error_rendered_raw(f, err, options)?;
             }
             Ok(())
         }
@@ -1520,7 +1544,7 @@ fn fmt_error_rendered(
                     writeln!(f)?;
                 }
                 first = false;
-                fmt_error_rendered(f, err, options)?;
+                fmt_error_rendered_raw(f, err, options)?;
             }
             Ok(())
         }
